@@ -60,18 +60,18 @@ fn run_prog_conv(prog: Vec<WOp>, bin: bool, st: &mut Stats) -> Result<(Vec<Unit>
 /// second opinion on every OK packet of the output whose rows/id are in `want`
 fn second_ok(out: &[u8], want: &[(u64, u64)]) -> Result<(), Violation> {
     let pkts = split_packets(out).unwrap();
-    let mut seen = Vec::new();
+    let mut seen = std::collections::HashSet::new();
     for p in &pkts {
         let m = &out[p.start..p.start + p.len];
         if m.first() == Some(&0) && m.len() >= 7 {
             if let Ok((r, i, _)) = second::ok(m) {
-                seen.push((r, i));
+                seen.insert((r, i));
             }
         }
     }
     for w in want {
         if !seen.contains(w) {
-            return Err(Violation::new("second-opinion", format!("mysql_common does not read any OK packet as {:?}; it reads {:?}", w, seen)));
+            return Err(Violation::new("second-opinion", format!("mysql_common does not read any OK packet as {:?}; it reads {:?}", w, seen.iter().take(20).collect::<Vec<_>>())));
         }
     }
     Ok(())
@@ -278,9 +278,15 @@ impl CompletionWalks {
     const VALS: [u64; 11] = [0, 1, 7, 250, 251, 65535, 65536, (1 << 24) - 1, 1 << 24, 1 << 32, u64::MAX];
     const ROWS: [u64; 5] = [0, 1, 3, 251, 300];
     fn plan(&self, idx: u64) -> (Vec<ClientCmd>, Vec<Arc<Vec<WOp>>>, Vec<Vec<Exp>>, Vec<String>) {
-        let mut rad = vec![3u64];
-        rad.extend(std::iter::repeat(Self::KINDS.len() as u64).take(self.depth));
-        let d = digits(idx, &rad);
+        let d: Vec<u64> = if self.depth > 64 {
+            // one long scripted walk per phase: the kinds follow a fixed rule
+            let k = Self::KINDS.len() as u64;
+            std::iter::once(idx % 3).chain((0..self.depth as u64).map(|j| (j * 5 + j / 13 + j / 257 + idx) % k)).collect()
+        } else {
+            let mut rad = vec![3u64];
+            rad.extend(std::iter::repeat(Self::KINDS.len() as u64).take(self.depth));
+            digits(idx, &rad)
+        };
         let phase = d[0] as usize;
         let c1 = Arc::new(vec![col("c", msql_srv::ColumnType::MYSQL_TYPE_LONG, msql_srv::ColumnFlags::empty())]);
         let c0: Arc<Vec<msql_srv::Column>> = Arc::new(Vec::new());
@@ -389,10 +395,17 @@ impl Family for CompletionWalks {
         format!("completion-walks-depth-{}", self.depth)
     }
     fn len(&self) -> u64 {
+        if self.depth > 64 {
+            return 3;
+        }
         3 * (Self::KINDS.len() as u64).pow(self.depth as u32)
     }
     fn run(&self, idx: u64, st: &mut Stats) -> Result<(), Violation> {
-        let (cmds, progs, exp, names) = self.plan(idx);
+        let (cmds, progs, exp, mut names) = self.plan(idx);
+        if names.len() > 64 {
+            let n = names.len();
+            names = vec![format!("a scripted walk of {} completions (kinds by a fixed rule, phase {})", n, idx % 3)];
+        }
         st.nontrivial += 1;
         st.bump("completion_walks");
         let conv = Conv::new(cmds);
@@ -446,6 +459,9 @@ impl Family for CompletionWalks {
         second_ok(&o.sim.out, &want_ok)
     }
     fn describe(&self, idx: u64) -> J {
+        if self.depth > 64 {
+            return json!({"scripted_walk_of_completions": self.depth, "phase": idx % 3});
+        }
         json!(self.plan(idx).3)
     }
 }
@@ -465,7 +481,7 @@ pub fn build(quick: bool) -> Check {
     Check {
         id: "C14",
         level: "model_checking",
-        rule: format!("(rows, last_insert_id) over a lattice of {} values per component (0, 1, 250..256, 2^16, 2^24, 2^32, 2^63, 2^64-1, every 2^k and 2^k +- 1) squared x 4 contexts (completed; complete_one first/middle; completed after complete_one) x text/binary; every value 0..1100 (thorough: 0..70000 and 2^24+-300) of one component against 0, 7, 251, 65536, 2^24, 2^64-1 of the other, both ways round; zero-column resultsets with every row count 0..300 and 65535, 65536, 70000 via end_row, write_row (empty and with cells), ignored write_col (values and NULLs), and as the second of two zero-column sets; every sequence of <= 5 (thorough: 6) exchanges on one connection over 16 kinds (completions direct / chained / as zero-column sets in text and binary, ordinary resultsets, errors at once, after a completion and at the end of a zero-column set, PREPARE, PING, INIT_DB) with position-dependent counts from every length class. Oracle: refwire's length-encoded-integer decoding of the OK packet, and mysql_common's OkPacket. Non-trivial = a component beyond the one-byte class.", nv),
+        rule: format!("(rows, last_insert_id) over a lattice of {} values per component (0, 1, 250..256, 2^16, 2^24, 2^32, 2^63, 2^64-1, every 2^k and 2^k +- 1) squared x 4 contexts (completed; complete_one first/middle; completed after complete_one) x text/binary; every value 0..1100 (thorough: 0..70000 and 2^24+-300) of one component against 0, 7, 251, 65536, 2^24, 2^64-1 of the other, both ways round; zero-column resultsets with every row count 0..300 and 65535, 65536, 70000 via end_row, write_row (empty and with cells), ignored write_col (values and NULLs), and as the second of two zero-column sets; every sequence of <= 5 (thorough: 6) exchanges on one connection over 16 kinds (completions direct / chained / as zero-column sets in text and binary, ordinary resultsets, errors at once, after a completion and at the end of a zero-column set, PREPARE, PING, INIT_DB) with position-dependent counts from every length class; scripted walks of 1031 and 66000 (thorough: 140000) completions of those kinds; a 5000- or 70000-byte row, every number <= 600 (1300) of quiet exchanges, then completed(2^64-1, 1). Oracle: refwire's length-encoded-integer decoding of the OK packet, and mysql_common's OkPacket. Non-trivial = a component beyond the one-byte class.", nv),
         assumptions: vec!["64-bit components are covered at the boundary lattice, not exhaustively".into()],
         bounds: json!({"lattice": nv, "zero_column_max_exhaustive": 300}),
         exhaustive: true,
@@ -477,6 +493,8 @@ pub fn build(quick: bool) -> Check {
             Box::new(super::aftermath::Aftermath { prop: "C14" }),
             Box::new(super::soak::QuietRuns { max_n: if quick { 600 } else { 1300 }, ends_in_completion: true }),
             Box::new(CompletionWalks { depth: 2 }),
+            Box::new(CompletionWalks { depth: 1031 }),
+            Box::new(CompletionWalks { depth: if quick { 66_000 } else { 140_000 } }),
             Box::new(CompletionWalks { depth: 3 }),
             Box::new(CompletionWalks { depth: 4 }),
             Box::new(CompletionWalks { depth: if quick { 5 } else { 6 } }),
